@@ -908,6 +908,23 @@ _FORMAT_CLASSES = {
 }
 
 
+# Formats confirmed against the defining documents while triaging the third audit (each entry was a
+# genuine finding or a sibling checked with it); keyed by (code, vendor)
+OTHER_CONFIRMED_FORMATS = {
+    (14, 0): ("OCT", "Login-IP-Host: RFC 7155 4.4.11.1, four octets, no address-family prefix"),
+    (98, 0): ("OCT", "Login-IPv6-Host: RFC 7155 4.4.11.2"),
+    (42, 0): ("U32", "Acct-Input-Octets: RFC 2866 5.3"),
+    (43, 0): ("U32", "Acct-Output-Octets: RFC 2866 5.4"),
+    (47, 0): ("U32", "Acct-Input-Packets: RFC 2866 5.8"),
+    (48, 0): ("U32", "Acct-Output-Packets: RFC 2866 5.9"),
+    (52, 0): ("U32", "Acct-Input-Gigawords: RFC 2869 5.1"),
+    (53, 0): ("U32", "Acct-Output-Gigawords: RFC 2869 5.2"),
+    (337, 0): ("U32", "MIP-Feature-Vector: RFC 4004 7.5"),
+    (2708, 10415): ("UTF8", "From-Address: TS 32.299 7.2.77A, the SIP From header"),
+    (11, 10415): ("OCT", "3GPP-Session-Stop-Indicator: TS 29.061 16.4.7.2, the single octet 0xFF (not valid UTF-8)"),
+}
+
+
 def _rfc6733_types(ctx: Ctx, model):
     ctx.rule("C01-R9", "every AVP of the RFC 6733 section 4.5 table is declared with the RFC's data "
                        "format in the dictionary", floor=40)
@@ -923,6 +940,20 @@ def _rfc6733_types(ctx: Ctx, model):
                      f"{e.name} ({code}) is declared {e.type_name}; RFC 6733 section 4.5 defines it as "
                      f"{fmt} ({'/'.join(sorted(_FORMAT_CLASSES[fmt]))}): values of the RFC's domain are "
                      f"rejected or decoded as something else (e.g. 0xffffffff as -1)", rule="C01-R9",
+                     expected=sorted(_FORMAT_CLASSES[fmt]), observed=e.type_name)
+
+
+    for (code, vendor), (fmt, why) in sorted(OTHER_CONFIRMED_FORMATS.items()):
+        e = dct.get(code, vendor)
+        cons = f"dictionary[{code}/{vendor}]:confirmed-format"
+        ctx.inst(cons, rule="C01-R9")
+        if e is None:
+            continue       # the dictionary need not know it
+        if e.type_name not in _FORMAT_CLASSES[fmt]:
+            ctx.fail(cons, e.where(dct.module),
+                     f"{e.name} ({code}/{vendor}) is declared {e.type_name}; it is {fmt} "
+                     f"({'/'.join(sorted(_FORMAT_CLASSES[fmt]))}) - {why}: conformant values are refused, "
+                     f"wrapped, or go out in another layout", rule="C01-R9",
                      expected=sorted(_FORMAT_CLASSES[fmt]), observed=e.type_name)
 
 
